@@ -23,11 +23,15 @@ def subharnesses(tier):
     if tier == 'quick':
         worlds = [('T1', 2, 3, 'q')]
     else:
-        worlds = [('T1', 2, 3, 'f'), ('T2', 2, 3, 'f'), ('T2', 1, 4, 'q'),
-                  ('T1', 3, 3, 'q')]
+        # sized for ~25 min on 16 cores
+        worlds = [('T1', 2, 3, 'f'), ('T2', 2, 3, 'q'), ('T1', 3, 3, 'min'),
+                  ('T2', 1, 4, 'min')]
     for topo, D, A, evset in worlds:
         for pl in _placements(A, 2):
-            if evset == 'q':
+            if evset == 'min':
+                events = [('none',), ('server_state', 0, 'down')]
+                ups = ()
+            elif evset == 'q':
                 events = [('none',), ('server_state', 0, 'down'),
                           ('server_state', 1, 'down'), ('remove_server', 0),
                           ('replace_server', 1, {}), ('remove_app', 0),
